@@ -5556,6 +5556,8 @@ func (t *Terminal) Loop() error {
 						diff *= -1
 					}
 					t.vmove(diff, false)
+					// The offset we put back may be the one that was out of range
+					t.constrain()
 				}
 				req(reqList)
 			case actOffsetMiddle:
